@@ -206,6 +206,11 @@ static void gen_tweak(chist *h, vh_rng *r, unsigned g)
         for (k = h->n - 2; k >= 0; --k) if (h->ops[k].kind == C_SET_TWEAK && !(h->ops[k].flags & F_NULL_PTR) && h->ops[k].dlen) {
             o->len = h->ops[k].len; memcpy(buf, h->pool + h->ops[k].doff, o->len); o->cls = "set_tweak(same value again)"; break;
         }
+    } else if (c->id != CIPH_MANTIS && !vh_below(r, 7)) {   /* a strict prefix of the previous tweak with a shorter length: the rest must become zero */
+        int k;
+        for (k = h->n - 2; k >= 0; --k) if (h->ops[k].kind == C_SET_TWEAK && !(h->ops[k].flags & F_NULL_PTR) && h->ops[k].dlen > 1) {
+            o->len = 1 + vh_below(r, h->ops[k].len - 1); memcpy(buf, h->pool + h->ops[k].doff, o->len); o->cls = "set_tweak(shorter prefix of the previous one)"; break;
+        }
     } else if (!vh_below(r, 6)) {   /* a tweak related to the previous one: halves / words repeated or swapped, one bit apart */
         int k;
         for (k = h->n - 2; k >= 0; --k) if (h->ops[k].kind == C_SET_TWEAK && !(h->ops[k].flags & F_NULL_PTR) && h->ops[k].dlen) {
